@@ -907,8 +907,15 @@ pub fn replay_tying(case: &Value, rep: &mut Report, rng: &mut Rng) {
     if opt.ends_with("-decay") {
         optimizer["decay"] = json!(0.0625);
     }
+    // (skips only between dense layers of ONE width: with mixed widths the library cannot back-propagate through the skips)
+    let skips_ok = !spatial && block.iter().all(|l| l[1] == block[0][1]);
     let arch = json!({"input": if spatial { json!([1, 4, 4]) } else { json!([width]) }, "out": 2, "ints": false,
-        "layers": [{"kind": "feedback", "layers": inner, "loops": loops, "acc": acc}, {"kind": "dense", "out": 2, "act": "linear", "bias": false}],
+        // (dense blocks also with input and / or output skips, rotating over the cases: the unrolled copies are one parameter set
+        // whatever the dataflow between them is; blocks of spatial layers with skips cannot be trained in front of a dense layer,
+        // nor can dense blocks of mixed widths)
+        "layers": [{"kind": "feedback", "layers": inner, "loops": loops, "acc": acc,
+                    "inskips": skips_ok && (loops + batch) % 2 == 0, "outskips": skips_ok && (loops + block.len() + steps) % 3 == 0},
+                   {"kind": "dense", "out": 2, "act": "linear", "bias": false}],
         "objective": {"kind": "mse"}, "optimizer": optimizer});
     rep.checks += 3;
     rep.nontrivial(id.clone());
